@@ -485,18 +485,27 @@ def run(ctx):
             msgs.append(dict(kind="tx", ver=ver, fn=1234, tn=3, pwr=10, burst=[1] * n))
     for n in (148, 444):
         msgs.append(dict(kind="rx", ver=0, fn=1234, tn=3, rssi=-60, toa=-5, nope=False, mod=0, tset=None, tsc=None, ci=None, burst=[1] * n))
+    # burst lengths per modulation: the documented ones AND the ones the message codec itself uses (its Modulation table, read from
+    # the imported module): "every datagram produced by the message codec is accepted by the corresponding definition" must hold for
+    # what the codec really produces, and the codec must produce the documented ones
+    real_bl = [m.bl for m in list(TU.toolkit().Modulation)]
     for i in range(6):
         for ts in range(4 if i == 0 else 2):
-            msgs.append(dict(kind="rx", ver=1, fn=2715647, tn=7, rssi=-120, toa=32767, nope=False, mod=i, tset=ts, tsc=5, ci=-1280,
-                             burst=[-127 + (k % 255) for k in range(TU.MOD_BL[i])]))
+            for bl in sorted({TU.MOD_BL[i], real_bl[i] if i < len(real_bl) else TU.MOD_BL[i]}):
+                msgs.append(dict(kind="rx", ver=1, fn=2715647, tn=7, rssi=-120, toa=32767, nope=False, mod=i, tset=ts, tsc=5, ci=-1280,
+                                 burst=[-127 + (k % 255) for k in range(bl)]))
+    n_spec_sweep = len(msgs)
     msgs.append(dict(kind="rx", ver=1, fn=0, tn=0, rssi=-47, toa=-32768, nope=True, mod=None, tset=None, tsc=None, ci=1280, burst=None))
     for _ in range(700 if quick else 12000):
         msgs.append(TU.rand_rx(rng) if rng.chance(2, 3) else TU.rand_tx(rng))
-    for m in msgs:
+    for mi, m in enumerate(msgs):
         for legacy in (False, True):
             try:
                 b = bytes(TU.real(m).gen_msg(legacy))
             except ValueError:
+                if mi < n_spec_sweep and m["kind"] == "rx" and m["ver"] == 1 and m["burst"] is not None and len(m["burst"]) == TU.MOD_BL[m["mod"]] and not legacy:
+                    ctx.oracle_fail("the message codec refuses a version-1 Rx message with the documented burst length of its modulation (%d soft bits for modulation %d)"
+                                    % (len(m["burst"]), m["mod"]), dict(msg=TU.short(m)), key="c17-msg-codec-refuses-documented-length")
                 continue
             name, exp, pad = expected_from_msg(m, legacy)
             add_dec(name, b, "msg-codec", msg=m, legacy=legacy, exp=exp, pad=pad)
